@@ -471,6 +471,7 @@ Fixpoint eval (e : expr) (r : env) {struct e} : value :=
                 end
   | EJoin sep a => match eval a r with
                    | VList l => match join_strs sep l with Some t => VStr t | None => VErr end
+                   | VStr s => match join_strs sep (map (fun c => VStr [c]) s) with Some t => VStr t | None => VErr end   (* sep.join(a string): its characters *)
                    | VExc => VExc
                    | _ => VErr
                    end
@@ -696,6 +697,16 @@ Lemma eval_sub_int a b r x y : eval a r = VInt x -> eval b r = VInt y -> eval (E
 Proof. intros Ha Hb. cbn [eval]. rewrite Ha, Hb. reflexivity. Qed.
 Lemma eval_eq_int a b r x y : eval a r = VInt x -> eval b r = VInt y -> eval (EEq a b) r = VBool (x =? y).
 Proof. intros Ha Hb. cbn [eval]. rewrite Ha, Hb. reflexivity. Qed.
+Lemma eval_slice_str a lo hi r s i j : eval a r = VStr s -> eval lo r = VInt i -> eval hi r = VInt j ->
+  eval (ESlice a lo hi) r = match slice_bounds (List.length s) (VInt i) (VInt j) with
+                            | Some (i', j') => VStr (firstn (j' - i') (skipn i' s))
+                            | None => VErr
+                            end.
+Proof. intros Ha Hl Hh. cbn [eval]. rewrite Ha, Hl, Hh. reflexivity. Qed.
+Lemma eval_mul_Q a b r p q : eval a r = VQ p -> eval b r = VQ q -> eval (EMul a b) r = VQ (Qred (p * q)).
+Proof. intros Ha Hb. cbn [eval]. rewrite Ha, Hb. reflexivity. Qed.
+Lemma eval_add_Q_int a b r p z : eval a r = VQ p -> eval b r = VInt z -> eval (EAdd a b) r = VQ (Qred (p + inject_Z z)).
+Proof. intros Ha Hb. cbn [eval]. rewrite Ha, Hb. reflexivity. Qed.
 Lemma eval_call0 f r : eval (ECall f []) r = prim f []. Proof. reflexivity. Qed.
 Lemma eval_call1 f a r v : eval a r = v -> is_bad v = false -> eval (ECall f [a]) r = prim f [v].
 Proof. intros <- H. cbn [eval]. destruct (eval a r); try discriminate H; reflexivity. Qed.
@@ -870,6 +881,9 @@ Lemma exec_setitem_list x k e r l i v l' : lookup x r = VList l -> eval k r = VI
   list_set l i v = Some l' -> exec (SSetItem x k e) r = ONorm (set x (VList l') r).
 Proof. intros Hx Hk <- Hv Hl. cbn [exec]. rewrite Hx, Hk. destruct (eval e r); try discriminate Hv; rewrite Hl; reflexivity. Qed.
 
+Lemma exec_append_ok x e r l v : lookup x r = VList l -> eval e r = v -> is_bad v = false -> exec (SAppend x e) r = ONorm (set x (VList (l ++ [v])) r).
+Proof. intros Hx <- H. cbn [exec]. rewrite Hx. destruct (eval e r); try discriminate H; reflexivity. Qed.
+
 Lemma exec_if_true c a b r : truthy (eval c r) = VBool true -> exec (SIf c a b) r = exec a r.
 Proof. intros H. rewrite exec_if, H. reflexivity. Qed.
 Lemma exec_if_false c a b r : truthy (eval c r) = VBool false -> exec (SIf c a b) r = exec b r.
@@ -912,6 +926,9 @@ Arguments exec_seq {prim wfuel}.
 Arguments exec_if {prim wfuel}.
 Arguments eval_var {prim}.
 Arguments eval_call0 {prim}.
+Arguments eval_add_Q_int {prim}.
+Arguments eval_mul_Q {prim}.
+Arguments eval_slice_str {prim}.
 Arguments eval_toint_int {prim}.
 Arguments eval_sub_int {prim}.
 Arguments eval_eq_int {prim}.
@@ -929,6 +946,7 @@ Arguments eval_sub_Q {prim}.
 Arguments exec_assign_ok {prim wfuel}.
 Arguments exec_setitem_list {prim wfuel}.
 Arguments exec_if_true {prim wfuel}.
+Arguments exec_append_ok {prim wfuel}.
 Arguments exec_if_false {prim wfuel}.
 Arguments exec_return_ok {prim wfuel}.
 Arguments exec_list_cons {prim wfuel}.
